@@ -25,7 +25,7 @@ Inductive term := TDir (q : qual) (m : mech) | TRedirect (d : bytes) | TExp (d :
 
 (* ------------------------------------------------------------------ the grammar *)
 (** [strict] (a switch of the evaluator below): answer RSkip where the known deviations of qsmtpd/spf.c are met
-    (F-C11-2, -10, -11, -12, -13 and case-sensitive ptr): with [strict = true] the evaluator below
+    (F-C11-2, -10, -11, -12, -13): with [strict = true] the evaluator below
     is the class for which agreement with Model/Spf.v is PROVED (Proofs/SpfAgree.v); with
     [strict = false] it is plain RFC 7208. *)
 
@@ -242,7 +242,6 @@ Definition name_under_gen (eq : bytes -> bytes -> bool) (target v : bytes) : boo
       && eq (skipn (length v - length target) v) target
       && (nth (length v - length target - 1) v 0 =? 46)).
 Definition name_under : bytes -> bytes -> bool := name_under_gen ci_eq.
-Definition name_under_cs : bytes -> bytes -> bool := name_under_gen bytes_eqb.
 
 (** the selected record of a TXT answer: exactly one record starting "v=spf1" followed by SP or nothing;
     RSkip when a record starts with something that differs from the version only by case or by what follows *)
@@ -325,11 +324,8 @@ Definition eval_dns_mech (domain : bytes) (m : mech) (cnt : nat) : mout * nat :=
                  | _ => (NoMatch, cnt)   (* 5.5: "If a DNS error occurs while doing the PTR RR lookup, then this mechanism fails to match" *)
                  end
         | NList names =>
-            let vs := ptr_validated (firstn 10 names) in
-            let m := existsb (name_under (target_of domain d)) vs in
-            (* names are compared case-insensitively; qsmtpd/spf.c uses strcmp() *)
-            if strict && negb (Bool.eqb m (existsb (name_under_cs (target_of domain d)) vs)) then (Abort RSkip, cnt)
-            else (if m then Match else NoMatch, cnt)
+            (* names are compared case-insensitively *)
+            (if existsb (name_under (target_of domain d)) (ptr_validated (firstn 10 names)) then Match else NoMatch, cnt)
         end
       end
   | MExists d =>
